@@ -194,6 +194,8 @@ def project_for_conformance(events):
     conn = [e for e in events if e["ev"] == "env_conn"]
     if not conn:
         return None, "no env_conn"
+    if str(conn[0].get("kind", "")).startswith("gate:handshake"):
+        return None, "handshake scenario (several connections; judged by the monitor only)"
     if sum(1 for e in events if e["ev"] == "call") > 60:
         return None, "too many requests for the conformance pass (stream exhaustion scenario)"
     cid, start = conn[0]["conn"], conn[0]["seq"]
